@@ -625,6 +625,9 @@ def run(ctx: Ctx):
             if 1 not in verdicts:
                 break
     shutil.rmtree(work, ignore_errors=True)
+    # growth of the specification: the Stan-style windowed warm-up schedule (WindowedAdaptation.tla)
+    from . import windowed
+    windowed.check(ctx, ctx.tier == "quick")
     ctx.cov["rule"] = ("every iteration of every recorded chain is one case; distinct = (chain, operator, accepted, hastings kind, "
                        "acceptance vs target, proposal moved)")
 
